@@ -35,6 +35,12 @@ class C16(PropBase):
                     out.append(Case('w_update', ['', s, data], 'setup', {}))
             for _ in range(ns):
                 q = ls.search_from(rng, v, allsids, allow_gt=(rng.random() < 0.15)) if rng.random() < 0.85 else rng.choice(allsids)
+                if rng.random() < 0.2 and v.alias:
+                    # a search without any search symbol: a fully valued Sid whose last value (or ext filter) is an extension alias
+                    cands = [(e, al) for e in allsids for al, members in v.alias.items() if e.split('/')[-1] in members]
+                    if cands:
+                        e, al = rng.choice(cands)
+                        q = '/'.join(e.split('/')[:-1] + [al]) if rng.random() < 0.6 else '/'.join(e.split('/')[:-1]) + '?' + self.leaf_key(ctx, v, e) + '=' + al
                 attrs = rng.choice([[], [], ['a'], ['a', 'zz'], ['sid'], ['b', 'a', 'c']])
                 enc = rng.choice(['str', 'uri', 'none'])
                 m = {'u': ui, 'q': q, 'attrs': attrs, 'enc': enc}
@@ -50,6 +56,9 @@ class C16(PropBase):
                 out.append(Case('get_attr', [['s', s1], rng.choice(['a', 'b', 'zz'])], 'get_attr', m))
         out.append(Case('fs_reset', [], 'setup', {}))
         return out
+    def leaf_key(self, ctx, v, e):
+        n = natural(v, e)
+        return n[1][-1][0] if n else 'ext'
     def compare(self, case, model, impl):
         if case.op in ('get_paths', 'get_all') and model[0] == 'ok' and impl[0] == 'ok':
             return None if sorted(map(str, model[1])) == sorted(map(str, impl[1])) else 'records differ (as multisets)'
